@@ -7,14 +7,21 @@ ITER = 'ml_metrics/_src/utils/iter_utils.py'
 
 
 def register(R):
-  R.cls('ShardConfig', dict(shard_index='int', num_shards='int', start_index='int', parent='ShardConfig?'),
-        frozen=True, lazy=('parent',))
+  # Ghost fields g_start/g_end/g_ok: the interval a state denotes relative to the
+  # root source of length root_len, and whether every level of the chain is a
+  # valid shard request. They are *defined* by unfolding one level (definitional
+  # extension: fresh ghost integers, so the assumption can never be vacuous).
+  R.cls('ShardConfig', dict(shard_index='int', num_shards='int', start_index='int', parent='ShardConfig?',
+                            g_start='int', g_end='int', g_ok='bool'),
+        frozen=True, lazy=('parent', 'g_start', 'g_end', 'g_ok'), on_new=_unfold_state,
+        on_field=lambda it, obj, f: _unfold_state(it, obj) if f == 'parent' else None)
   # `data` is abstracted to a sized opaque object (its own behaviour is verified
   # separately on MergedSequences); its class is MergedSequences (established by
   # __post_init__, which is executed symbolically whenever a source is built).
   R.cls('SequenceDataSource', dict(data='sized', ignore_error='bool', _shard_state='ShardConfig',
                                    _start='int', _end='int?'), frozen=True)
   R.cls('ShardedIterable', dict(data='obj', _shard_state='ShardConfig'), frozen=True)
+  R.ghost_factories['root_len'] = root_len
   R.hasattr_hook = lambda it, v, name: True
   R.isinstance_hook = _isinstance
 
@@ -27,6 +34,8 @@ def register(R):
     s = a[0]
     e = it.getfield(s, '_end')
     n = VInt(len_of(it.getfield(s, 'data').t))
+    if isinstance(e, VNoneT):
+      return n
     return it.ite(e.isnone, n, e.val) if isinstance(e, VOpt) else e
 
   # Partition arithmetic, written from the definition of an even split of the
@@ -44,6 +53,44 @@ def register(R):
     s, e, i, n = (it.to_int(x) for x in a)
     q, r = (e - s) / n, (e - s) % n
     return VInt(q + z3.If(i < r, 1, 0))
+
+
+def root_len(it):
+  if 'root_len' not in it.ghost:
+    n = it.fresh_int('root_len')
+    it.assume(n >= 0)
+    it.ghost['root_len'] = VInt(n)
+  return it.ghost['root_len'].t
+
+
+def _unfold_state(it, st):
+  """g(st) = even-split part (shard_index of num_shards) of g(parent) (or of the
+  whole root [0, root_len) when there is no parent), shifted by start_index."""
+  if st.f.get('__unfolded__'):
+    return
+  st.f['__unfolded__'] = True
+  N = root_len(it)
+  par = it.getfield(st, 'parent')
+  idx, n, off = (it.to_int(it.getfield(st, k)) for k in ('shard_index', 'num_shards', 'start_index'))
+  gs, ge, ok = it.getfield(st, 'g_start').t, it.getfield(st, 'g_end').t, it.getfield(st, 'g_ok').t
+  if isinstance(par, VNoneT):
+    isnone, pv = z3.BoolVal(True), None
+  elif isinstance(par, VOpt):
+    isnone, pv = par.isnone, par.val
+  else:
+    isnone, pv = z3.BoolVal(False), par
+  if pv is not None:
+    ps, pe, pok = it.getfield(pv, 'g_start').t, it.getfield(pv, 'g_end').t, it.getfield(pv, 'g_ok').t
+  else:
+    ps, pe, pok = z3.IntVal(0), N, z3.BoolVal(True)
+  s = z3.If(isnone, z3.IntVal(0), ps)
+  e = z3.If(isnone, N, pe)
+  q, r = (e - s) / n, (e - s) % n
+  start = s + idx * q + z3.If(idx < r, idx, r)
+  ln = q + z3.If(idx < r, 1, 0)
+  here_ok = z3.And(0 <= idx, idx < n)
+  it.assume(z3.Implies(n >= 1, z3.And(gs == start + off, ge == start + ln)))
+  it.assume(ok == z3.And(here_ok, z3.Or(isnone, pok)))
 
 
 def _isinstance(it, v, cname):
